@@ -108,6 +108,9 @@ pub fn multiplier_nonneg() -> BoxedStrategy<f64> {
         Just(1e3),
         Just(1e6),
         (0.0f64..10.0),
+        // "incl. 0 and large": finite multipliers beyond the f32 range and at the top of the f64 range (a product
+        // with a zero width is 0, with a positive one at most +inf: the order relations still hold)
+        (0usize..3).prop_map(|i| [1e39, 1e300, f64::MAX][i]),
     ]
     .boxed()
 }
